@@ -13,9 +13,11 @@ Definition outcome_eqb (a b : outcome) : bool :=
 
 Definition obs_eqb (a b : obs) : bool :=
   match a, b with
-  | ONone, ONone | OConfQuit, OConfQuit | OTrig, OTrig | OAns, OAns | ODone, ODone | OStop, OStop => true
+  | ONone, ONone | OConfQuit, OConfQuit | OTrig, OTrig | OAns, OAns | ODone, ODone | OStop, OStop
+  | OAnsH, OAnsH => true
   | ORet t1 r1, ORet t2 r2 => Z.eqb t1 t2 && ret_eqb r1 r2
-  | OConfd a, OConfd b | OSent a, OSent b | OHand a, OHand b => Z.eqb a b
+  | OConfd a, OConfd b | OSent a, OSent b | OHand a, OHand b | OBcHeld a, OBcHeld b
+  | OStopBc a, OStopBc b => Z.eqb a b
   | _, _ => false
   end.
 
@@ -74,7 +76,12 @@ Definition vverdict (c : Z * vcase) : list (Z * Z * Z * Z) :=
   let '(id, (ms, tnum, tden, v)) := c in
   (if model_allows ms tnum tden v then [] else [(id, 1, 0, 0)]) ++
   (if Bool.eqb (is_err v) (should_fail_b (spec_repliers ms) (spec_rejected ms) tnum tden)
-   then [] else [(id, 2, 0, 16)]).
+   then [] else [(id, 2, 0, 16)]) ++
+  (* the error handed back carries a code some replier actually gave *)
+  (match v with
+   | VErr c => if existsb (fun e => code_eqb (snd e) c) (spec_rejected ms) then [] else [(id, 2, 1, 0)]
+   | _ => []
+   end).
 
 Definition run_vcases (cs : list (Z * vcase)) : list (Z * Z * Z * Z) := flat_map vverdict cs.
 
